@@ -765,7 +765,10 @@ func (o qrOpts) String() string {
 	return strings.Join(s, "+")
 }
 
-func tickBudget(n int) int64 { return int64(300*n + 300) }
+// tickBudget lies above the library's own iteration caps (2000*n outer steps, 2000
+// per 2x2 block since 40dd981): "failed to converge" surfaces as the library's
+// error, only a genuinely unbounded loop is skipped as no-return.
+func tickBudget(n int) int64 { return int64(6000*n + 6000) }
 
 // epsLabel names the deflation tolerance option (coverage and witness only:
 // the signature does not depend on it).
